@@ -1,6 +1,6 @@
 /-
   H5.Model.Encoding — hand model of the encoding determination of `_inputstream.HTMLBinaryInputStream`
-  (html5lib/_inputstream.py 378-918) and of the late `<meta>` handling in html5parser.py
+  (html5lib/_inputstream.py 385-924) and of the late `<meta>` handling in html5parser.py
   (`InHeadPhase.startTagMeta` 711-734, `HTMLParser._parse` 116-126).
 
   * `lookupEncoding`: webencodings' label table is extracted (H5.Gen.Encodings.encodingLabels); normalisation =
@@ -36,40 +36,39 @@ def lookupLabel (s : Str) : Option Str :=
 def isSurrogate (c : Nat) : Bool := 0xD800 ≤ c && c ≤ 0xDFFF
 
 /-- `lookupEncoding(encoding)` for `None` / a `str`: `ascii_lower` is `string.encode().lower().decode()`, so a lone
-surrogate raises UnicodeEncodeError (only AttributeError is caught, 915) -/
+surrogate raises UnicodeEncodeError inside webencodings — caught since repair 4d54525 (920): an unknown label.
+(The `Except` type is kept for the callers; this function no longer raises.) -/
 def lookupEncodingStr (enc : Option Str) : Except PyErr (Option Str) :=
   match enc with
-  | none => .ok none                                                                     -- 917-918
+  | none => .ok none                                                                     -- 922-923
   | some s =>
-    if (stripLabel s).any isSurrogate then .error (.unicodeEncode "webencodings.ascii_lower")
-    else .ok (lookupLabel s)                                                             -- 912-914
+    if (stripLabel s).any isSurrogate then .ok none                                      -- 920-921
+    else .ok (lookupLabel s)                                                             -- 917-919
 
 /-- `lookupEncoding(encoding)` for `bytes`: decoded as ASCII, `None` when that fails (906-910) -/
 def lookupEncodingBytes (b : Bytes) : Option Str :=
   if b.any (fun c => c ≥ 128) then none else lookupLabel b
 
-/-! ### detectBOM (529-561) -/
+/-! ### detectBOM (535-568) -/
 
 def bomLookup (k : Bytes) : Option Str := (bomDict.find? (fun kv => kv.1 == k)).map (·.2)
 
 /-- returns (encoding or None, raw stream position afterwards); `string` is the result of `rawStream.read(4)` at
-position 0.  NOTE the three probes are `string[:3]`, `string`, `string[:2]` — for inputs shorter than 4 bytes the
-slices coincide — and that the stream is NOT rewound when the BOM's label is unknown to webencodings (UTF-32). -/
+position 0.  Two probes, `string[:3]` (UTF-8) then `string[:2]` (UTF-16) — repair 907ffcc removed the UTF-32 entries
+and the 4-byte probe; the seek is clamped to the bytes actually read (repair 7aa7032), because on a stream shorter
+than 3 bytes the first slice is the whole string and can equal a 2-byte BOM. -/
 def detectBOM (data : Bytes) : Except PyErr (Option Str × Nat) :=
-  let string := data.take 4                                                              -- 540
+  let string := data.take 4                                                              -- 546
   let r : Option Str × Nat :=
-    match bomLookup (string.take 3) with                                                 -- 544-545
+    match bomLookup (string.take 3) with                                                 -- 550-551
     | some e => (some e, 3)
-    | none =>
-      match bomLookup string with                                                        -- 548-549
-      | some e => (some e, 4)
-      | none => (bomLookup (string.take 2), 2)                                           -- 551-552
+    | none => (bomLookup (string.take 2), 2)                                             -- 555-556
   match r.1 with
-  | some e =>                                                                            -- 556-558
+  | some e =>                                                                            -- 560-563
     match lookupEncodingStr (some e) with
     | .error x => .error x
-    | .ok enc => .ok (enc, r.2)
-  | none => .ok (none, 0)                                                                -- 559-561
+    | .ok enc => .ok (enc, min r.2 string.length)
+  | none => .ok (none, 0)                                                                -- 564-566
 
 /-! ### EncodingBytes (578-673) -/
 
@@ -486,19 +485,21 @@ def lookupEncodingAny : Label → Except PyErr (Option Str)
   | .bytes b => .ok (lookupEncodingBytes b)
 
 def changeEncoding (cur : Str) (conf : Conf) (newEncoding : Label) : Except PyErr Change :=
-  if conf = .certain then .error (.assertFail "changeEncoding: charEncoding[1] != certain")     -- 514
+  if conf = .certain then .error (.assertFail "changeEncoding: charEncoding[1] != certain")     -- 520
   else
-    match lookupEncodingAny newEncoding with                                                     -- 515
+    match lookupEncodingAny newEncoding with                                                     -- 521
     | .error e => .error e
-    | .ok none => .ok .unchanged                                                                 -- 516-517
+    | .ok none => .ok .unchanged                                                                 -- 522-523
     | .ok (some ne) =>
-      if ne = lit "utf-16be" ∨ ne = lit "utf-16le" then                                          -- 518
-        match lookupEncodingStr (some (lit "utf-8")) with                                        -- 519
-        | .error e => .error e
-        | .ok none => .error (.assertFail "changeEncoding: utf-8")                               -- 520
-        | .ok (some _) => .ok .unchanged          -- the if/elif chain ends here: the new value is dropped
-      else if ne = cur then .ok .nowCertain                                                      -- 521-522
-      else .ok (.reparse ne)                                                                     -- 523-527
+      -- 524-526: a declared UTF-16 means UTF-8
+      let mapped : Except PyErr (Option Str) :=
+        if ne = lit "utf-16be" ∨ ne = lit "utf-16le" then lookupEncodingStr (some (lit "utf-8")) else .ok (some ne)
+      match mapped with
+      | .error e => .error e
+      | .ok none => .error (.assertFail "changeEncoding: utf-8")                                 -- 526
+      | .ok (some ne) =>
+        if ne = cur then .ok .nowCertain                                                         -- 527-528 (`if` since repair 10ad92e)
+        else .ok (.reparse ne)                                                                   -- 529-533
 
 /-- `str.lower()`, exact wherever the result contains an ASCII character (A-Z, U+212A → k, U+0130 → i U+0307);
 only compared with the ASCII string "content-type" -/
